@@ -113,7 +113,10 @@ def _scalar_of(v):
     return v
 
 
-def array_terms(chk, cname, spec):
+def array_terms(chk, cname, spec, int_nodes=False):
+    """int_nodes: the argument array is integer-typed (a caller's hand-built nodes such as np.array([-1, 0, 1])): NumPy's dtype-inheriting
+    constructors (full_like, zeros_like, in-place stores) then truncate, so "scalar or array" must be shown for this dtype too.  The element
+    terms stay real-sorted (an over-approximation: the identity is shown for every value, in particular the integers)."""
     def thunk(eng):
         tf = make_tf(eng, cname, spec)
         for h in spec["dom"] + spec["cod"]:
@@ -125,8 +128,8 @@ def array_terms(chk, cname, spec):
         Rr = z3.Function("Rr", z3.IntSort(), z3.RealSort())
         eng.assume(X(i0) == x)
         eng.assume(Rr(i0) == r)
-        xa = I.Arr((n,), lambda i: X(T.zi(i)), "real")
-        ra = I.Arr((n,), lambda i: Rr(T.zi(i)), "real")
+        xa = I.Arr((n,), lambda i: X(T.zi(i)), "int" if int_nodes else "real")
+        ra = I.Arr((n,), lambda i: Rr(T.zi(i)), "int" if int_nodes else "real")
         res = {}
         for mname in METHODS:
             v = eng.call_method(tf, mname, ra if mname == "inverse" else xa)
@@ -139,7 +142,7 @@ def array_terms(chk, cname, spec):
             t = T.zr(v.fn(i0))
             res[mname] = ("arr", z3.substitute(t, (X(i0), x), (Rr(i0), r)), v.shape[0], n)
         return res
-    return chk.explore(f"{cname}/array", thunk, func=f"{MOD}.{cname}")
+    return chk.explore(f"{cname}/{'int-array' if int_nodes else 'array'}", thunk, func=f"{MOD}.{cname}")
 
 
 def build(chk):
@@ -174,24 +177,25 @@ def build(chk):
         # finite reference end points
         ends_thunk(chk, cname, spec)
         # array instantiation agrees with the scalar one
-        if not spec.get("array_only"):
-            aouts = [o for o in array_terms(chk, cname, spec) if o.kind == "return"]
+        for int_nodes in ((False, True) if not spec.get("array_only") else ()):
+            aouts = [o for o in array_terms(chk, cname, spec, int_nodes) if o.kind == "return"]
+            kind_ = "int-array" if int_nodes else "array"
             for o in aouts:
                 for mname in METHODS:
                     ent = o.value[mname]
                     if ent[0] == "arr":
-                        chk.add(f"{cname}.{mname}/post/array-shape", list(o.pc), ent[2] == ent[3], func=f"{fq}.{mname}",
-                                meta={"replay": {"cls": cname, "what": "array"}})
+                        chk.add(f"{cname}.{mname}/post/{kind_}-shape", list(o.pc), ent[2] == ent[3], func=f"{fq}.{mname}",
+                                meta={"replay": {"cls": cname, "what": kind_}})
                         sres = rets[0].value[mname]
                         if z3.simplify(ent[1]).eq(z3.simplify(sres)):
-                            chk.add(f"{cname}.{mname}/post/array-equals-scalar", list(o.pc), z3.BoolVal(True), func=f"{fq}.{mname}")
+                            chk.add(f"{cname}.{mname}/post/{kind_}-equals-scalar", list(o.pc), z3.BoolVal(True), func=f"{fq}.{mname}")
                         else:
-                            chk.add_identity(f"{cname}.{mname}/post/array-equals-scalar", ent[1], sres, list(o.pc), func=f"{fq}.{mname}",
-                                             meta={"replay": {"cls": cname, "what": "array"}}, side=False)
+                            chk.add_identity(f"{cname}.{mname}/post/{kind_}-equals-scalar", ent[1], sres, list(o.pc), func=f"{fq}.{mname}",
+                                             meta={"replay": {"cls": cname, "what": kind_}}, side=False)
                     else:
                         # methods returning a scalar for array input break "scalar or array" use
-                        chk.add(f"{cname}.{mname}/post/array-shape", list(o.pc), z3.BoolVal(False), func=f"{fq}.{mname}",
-                                meta={"replay": {"cls": cname, "what": "array"}})
+                        chk.add(f"{cname}.{mname}/post/{kind_}-shape", list(o.pc), z3.BoolVal(False), func=f"{fq}.{mname}",
+                                meta={"replay": {"cls": cname, "what": kind_}})
     generic_inverse_formulas(chk)
     convert_inf(chk)
     lazy_scale(chk)
